@@ -228,6 +228,30 @@ mutant("dumbmemory-fastpath-wrong-byte-order", ["C10"], [("cpu.go", """func (cpu
 	l := cpu.Memory.Get(addr)""")], note="type-specific fast path with swapped bytes: only when the CPU runs directly on a DumbMemory")
 
 
+mutant("reti-handler-cached-on-first-use", ["C06", "C07"], [("z80.go", """	// HALT indicates whether the last Run() is terminated with HALT op.
+	HALT bool
+}""", """	// HALT indicates whether the last Run() is terminated with HALT op.
+	HALT bool
+
+	retiCached RETIHandler
+}"""), ("op_callret.go", """	if cpu.RETIHandler != nil {
+		cpu.RETIHandler.RETIHandle()
+	}""", """	if cpu.retiCached == nil {
+		cpu.retiCached = cpu.RETIHandler
+	}
+	if cpu.retiCached != nil {
+		cpu.retiCached.RETIHandle()
+	}""")], note="handler looked up once and cached: stale after the host registers another handler")
+mutant("accepted-request-data-released", ["C06"], [("cpu.go", """	if cpu.Interrupt != nil && cpu.processInterrupt() {
+		cpu.Interrupt = nil
+		return
+	}""", """	if cpu.Interrupt != nil && cpu.processInterrupt() {
+		cpu.Interrupt.Data = nil // release the device's buffer
+		cpu.Interrupt = nil
+		return
+	}""")], note="the library writes into the request value: a host that re-presents the same *Interrupt gets an empty one")
+
+
 # ---- C12 -------------------------------------------------------------------
 mutant("dumbmemory-set-unguarded", ["C12"], [("memio.go", """func (dm DumbMemory) Set(addr uint16, value uint8) {
 	if int(addr) >= len(dm) {
